@@ -323,7 +323,8 @@ pub fn check_stdfs_twin_prog(prog: &[Op]) -> CaseResult {
                     Out::Entry(e)
                 },
                 // (the stage at which a builder call fails is part of what the caller sees)
-                Out::Err(e) => Out::Err(if e.starts_with("build:") { "at-builder-creation".to_string() } else { String::new() }),
+                // (the stage at which a builder call fails, and which error it is - kinds carry no path)
+                Out::Err(e) => Out::Err(e),
                 x => x,
             };
             let tree: Vec<(String, String)> = t.nodes.iter().map(|(k, n)| (k.clone(), match n {
